@@ -192,6 +192,11 @@ def lineshape_checks(tier, seed):
                 # Voigt limits
                 if not np.allclose(LS.voigtian(xg, x0, w, 1e-9 * w, integ), LS.gaussian(xg, x0, w, integ), rtol=1e-5, atol=1e-9 * integ / w):
                     fails.append({"key": "C18:voigt-gaussian-limit", "clause": "C18:voigt-gaussian-limit", "ops": [{"w": w, "x0": x0}]})
+                # the EXACT Gaussian limit (Lorentzian width zero), for every integral argument
+                with np.errstate(all="ignore"):
+                    v0 = LS.voigtian(xg, x0, w, 0.0, integ)
+                if np.all(np.isfinite(v0)) and not np.allclose(v0, LS.gaussian(xg, x0, w, integ), rtol=1e-9, atol=1e-12 * integ / w):
+                    fails.append({"key": "C18:voigt-gaussian-limit-exact", "clause": "C18:voigt-gaussian-limit-exact", "ops": [{"w": w, "x0": x0, "integral": integ}]})
                 if not np.allclose(LS.voigtian(xg, x0, 1e-4 * w, w, integ), LS.lorentzian(xg, x0, w, integ), rtol=1e-4, atol=1e-7 * integ / w):
                     fails.append({"key": "C18:voigt-lorentzian-limit", "clause": "C18:voigt-lorentzian-limit", "ops": [{"w": w, "x0": x0}]})
                 # derivative variants vs numerical derivative
